@@ -87,12 +87,43 @@ theorem conflicting_commit_fails (db : DB) (j : Nat) (tj : Txn) (htj : db.txn? j
     (hc : hasConflict db.versions tj = true) : (step db (.commit j)).2 = .conflict := by
   simp [step, htj, hl, hw, hc]
 
+/-- **a committing transaction's reads are current**: when a transaction with writes commits, every key it read
+    from the store still has, at the moment of the commit (and at any timestamp from its snapshot on), the value the
+    transaction saw — so the transaction as a whole could have run at its commit point: with
+    `commit_installs_all_at_once` this is serializability of the committed read-write transactions in commit order -/
+theorem committed_reads_were_current (db : DB) (i : Nat) (t : Txn) (ht : db.txn? i = some t)
+    (hne : t.writes.isEmpty = false) (h : (step db (.commit i)).2 = .committed)
+    (k : Key) (hk : k ∈ t.reads) (ts : Nat) (hts : t.startTs ≤ ts) :
+    readAt db.versions ts k = readAt db.versions t.startTs k := by
+  have hnc : hasConflict db.versions t = false := by
+    cases hc : hasConflict db.versions t
+    · rfl
+    · simp only [step, ht] at h
+      cases hl : t.live
+      · simp [hl] at h
+      · simp [hl, hne, hc] at h
+  exact noConflict_read_current db.versions t hnc k hk ts hts
+
+/-- a read-only transaction always commits (it has nothing to install): its reads are those of its snapshot
+    (`snapshot_read`), which is a state the database really was in -/
+theorem read_only_commits (db : DB) (i : Nat) (t : Txn) (ht : db.txn? i = some t) (hl : t.live = true)
+    (hw : t.writes.isEmpty = true) : (step db (.commit i)).2 = .committed ∧
+    (step db (.commit i)).1.versions = db.versions := by
+  simp [step, ht, hl, hw, DB.setTxn]
+
 /-! non-vacuity: two transactions increment the same key from the same snapshot -/
 def sched : List Act := [.begin 1, .begin 2, .read 1 7, .read 2 7, .write 1 7 (some 1), .write 2 7 (some 1),
   .commit 1, .outsideRead 7, .commit 2, .outsideRead 7]
 
 example : (runActs {} sched).2 =
     [.none, .none, .val none, .val none, .none, .none, .committed, .val (some 1), .conflict, .val (some 1)] := by
+  decide
+
+/-- a transaction that read a key nobody changed commits, and what it read is what the store holds at commit -/
+def sched2 : List Act := [.begin 1, .begin 2, .read 1 7, .write 1 8 (some 5), .write 2 9 (some 6), .commit 2, .commit 1,
+  .outsideRead 7, .outsideRead 8, .outsideRead 9]
+example : (runActs {} sched2).2 =
+    [.none, .none, .val none, .none, .none, .committed, .committed, .val none, .val (some 5), .val (some 6)] := by
   decide
 
 end Defra.Props.C06
